@@ -195,6 +195,45 @@ func c15Run(w *W) {
 	if w.thorough() {
 		n = 5
 	}
+	// long strings: one character, and each pair of two, repeated up to a length of 40
+	for rep := 5; rep <= 40; rep += 5 {
+		if !w.Mine() || w.TimeUp() {
+			continue
+		}
+		var strs []string
+		for _, a := range c15Alpha {
+			strs = append(strs, strings.Repeat(string(a), rep))
+			for _, b := range []rune("a$\\ '") {
+				if a != b {
+					strs = append(strs, strings.Repeat(string(a)+string(b), rep/2))
+				}
+			}
+		}
+		for _, s := range strs {
+			w.Count("states", 1)
+			for _, style := range []string{"single", "double", "backslash", "mixed"} {
+				src, ok := c15Quote(s, style)
+				if !ok {
+					continue
+				}
+				word, err := c13Parse(src)
+				if err != nil {
+					w.Violation("", c15Case{S: s, Style: style, Src: src}, fmt.Sprintf("the parser rejects the quoted word %s: %v", src, err))
+					continue
+				}
+				for _, m := range c15Modes {
+					c := c15Case{S: s, Style: style, Src: src, Mode: uint(m), Env: "ifs"}
+					w.Count("evaluations", 1)
+					w.Count("long_strings", 1)
+					w.Count("traces_validated_against_impl", 1)
+					w.Count("distinct_nontrivial", 1)
+					if d := c15Judge(c, word); d != "" {
+						w.Violation("", c, d)
+					}
+				}
+			}
+		}
+	}
 	for _, fam := range [][]rune{[]rune("a{}2,"), []rune("a()|+"), []rune("a^$.é")} {
 		genRunes(fam, 5, func(rs []rune) {
 			if len(rs) == 0 || !w.Mine() || w.TimeUp() {
